@@ -947,6 +947,221 @@ def rule_autoparam(ctx) -> RuleResult:
 
 
 # ---------------------------------------------------------------------------------------------
+# R-EMPTYCOHORTS (C19, C09): the planner never proposes a plan that needs cohorts together with an empty cohort map.
+# Stated belief: dask_groupby_agg refuses `method == "cohorts"` when `not chunks_cohorts`; _choose_method turns a proposed "blockwise" into
+# "cohorts" for arg reductions without looking at the map.  So every `return <plan other than "map-reduce">, <map>` of find_group_cohorts
+# whose map is computed (not a non-empty literal) must be dominated by an absence guard: an `if` that tests emptiness of something the map
+# is computed from (`not M.any()`, `len(M) == 0`, `M.size == 0`, `not M`) and leaves with the "map-reduce" proposal.
+def _dep_names(f, e: ast.AST) -> set[str]:
+    """names e is computed from, transitively and flow-insensitively: assignments, item stores (X[k] = v), in-place updates (X.update(v)) and loop targets"""
+    deps: dict[str, set[str]] = {}
+    for a in walk_own(f.node):
+        if isinstance(a, (ast.Assign, ast.AugAssign, ast.AnnAssign)) and a.value is not None:
+            for t in (a.targets if isinstance(a, ast.Assign) else [a.target]):
+                for x in ([t] if not isinstance(t, (ast.Tuple, ast.List)) else t.elts):
+                    if isinstance(x, ast.Name):
+                        deps.setdefault(x.id, set()).update(names_in(a.value))
+                    elif isinstance(x, ast.Subscript) and isinstance(x.value, ast.Name):
+                        deps.setdefault(x.value.id, set()).update(names_in(a.value) | names_in(x.slice))
+        elif isinstance(a, ast.For):
+            for x in ast.walk(a.target):
+                if isinstance(x, ast.Name):
+                    deps.setdefault(x.id, set()).update(names_in(a.iter))
+        elif isinstance(a, ast.Call) and isinstance(a.func, ast.Attribute) and isinstance(a.func.value, ast.Name) and a.func.attr in ("update", "append", "extend", "add"):
+            for arg in a.args:
+                deps.setdefault(a.func.value.id, set()).update(names_in(arg))
+    out, work = set(), list(names_in(e))
+    while work:
+        nm = work.pop()
+        if nm in out:
+            continue
+        out.add(nm)
+        work.extend(deps.get(nm, ()))
+    return out
+
+
+def rule_emptycohorts(ctx) -> RuleResult:
+    res = RuleResult("R-EMPTYCOHORTS", "the planner proposes blockwise/cohorts only with a non-empty cohort map", min_instances=2)
+    from ..cfg import CFG
+    dg = ctx.prog.func("core.dask_groupby_agg")
+    belief = None
+    for st in walk_own(dg.node):
+        if isinstance(st, ast.If) and any(isinstance(b, ast.Raise) for b in st.body) and isinstance(st.test, ast.UnaryOp) and isinstance(st.test.op, ast.Not) \
+                and isinstance(st.test.operand, ast.Name) and "cohort" in st.test.operand.id:
+            belief = st
+    if belief is None:
+        res.notes.append("dask_groupby_agg no longer refuses an empty cohort map: nothing to anticipate")
+        res.min_instances = 0
+        return res
+    f = ctx.prog.func("core.find_group_cohorts")
+    cfg = CFG(f)
+    dom = cfg.dominators()
+    rets = [n for n in cfg.nodes if n.kind == "return" and n.ast is not None and isinstance(n.ast.value, ast.Tuple) and len(n.ast.value.elts) == 2]
+    if len(rets) < 3:
+        raise AnalysisError("find_group_cohorts no longer returns (plan, cohorts) pairs (anchor)")
+
+    def empties(test: ast.AST) -> set[str]:
+        """names whose emptiness makes the test true"""
+        out = set()
+        t = test
+        if isinstance(t, ast.UnaryOp) and isinstance(t.op, ast.Not):
+            o = t.operand
+            if isinstance(o, ast.Call) and isinstance(o.func, ast.Attribute) and o.func.attr in ("any", "sum") and not o.args:
+                out |= names_in(o.func.value)
+            elif isinstance(o, (ast.Name, ast.Attribute)) or (isinstance(o, ast.Call) and norm(o.func) == "len"):
+                out |= names_in(o)
+        if isinstance(t, ast.Compare) and len(t.ops) == 1 and isinstance(t.ops[0], ast.Eq) and isinstance(t.comparators[0], ast.Constant) and t.comparators[0].value == 0:
+            l = t.left
+            if (isinstance(l, ast.Call) and norm(l.func) == "len") or (isinstance(l, ast.Attribute) and l.attr in ("size", "nnz")) \
+                    or (isinstance(l, ast.Call) and isinstance(l.func, ast.Attribute) and l.func.attr == "sum"):
+                out |= names_in(l)
+        return out - {"len"}
+
+    guards = []
+    for st in walk_own(f.node):
+        if isinstance(st, ast.If) and st.body and isinstance(st.body[-1], ast.Return) and isinstance(st.body[-1].value, ast.Tuple) \
+                and isinstance(st.body[-1].value.elts[0], ast.Constant) and st.body[-1].value.elts[0].value == "map-reduce":
+            em = empties(st.test)
+            if em:
+                inner = {id(x) for x in ast.walk(st.test)}
+                tn = next((n for n in cfg.nodes if n.kind == "test" and n.ast is not None and id(n.ast) in inner), None)
+                if tn is not None:
+                    guards.append((tn, em, st))
+    for r in rets:
+        plan, cmap = r.ast.value.elts
+        if isinstance(plan, ast.Constant) and plan.value == "map-reduce":
+            continue
+        if isinstance(cmap, ast.Dict) and cmap.keys:
+            res.inst(f"find_group_cohorts: 'return {norm(plan)}, {norm(cmap)[:30]}': literal non-empty map", f"ret|{norm(plan)}|literal")
+            continue
+        clo_names = _dep_names(f, cmap)
+        ok = [norm(st.test) for tn, em, st in guards if tn.id in dom.get(r.id, ()) and (em & clo_names)]
+        res.inst(f"find_group_cohorts: 'return {norm(plan)}, {norm(cmap)[:30]}': dominated by an absence guard: {ok[:1] or False}", f"ret|{norm(plan)}|{norm(cmap)[:30]}")
+        if not ok:
+            res.report(f"core.find_group_cohorts|plan-with-empty-cohorts|{norm(plan)}", f.where(r.ast), f.qualname,
+                       f"'return {norm(plan)}, {norm(cmap)[:40]}' can hand out an empty cohort map (no requested label present in `by`): no dominating `if <nothing present>: "
+                       f"return \"map-reduce\", …` tests what the map is computed from; _choose_method then turns the proposal into 'cohorts' for arg reductions and "
+                       f"dask_groupby_agg refuses it ('{norm(belief.test)}'), although method='map-reduce' returns the all-fill result")
+    return res
+
+
+# ---------------------------------------------------------------------------------------------
+# R-BLOCKBCAST (C07, C19): a blockwise plan on a dask array sees labels of the array's full trailing shape.
+# _unify_chunks keeps a size-1 dimension of numpy labels as ONE chunk of size 1 (the kernels broadcast it block by block), which is fine for the
+# tree plans.  The blockwise plan lists the labels of every *block* eagerly, and rechunk_for_blockwise indexes the labels by array position:
+# both need one label per array element.  Path-sensitive: on every path of groupby_reduce from the plan choice to (a) rechunk_for_blockwise
+# and (b) the graph constructor on which `method == "blockwise"` may hold with in-memory labels, either the labels were re-bound to
+# np.broadcast_to(labels, array.shape[-labels.ndim:]) or the path knows that the shapes already agree.
+def rule_blockbcast(ctx) -> RuleResult:
+    res = RuleResult("R-BLOCKBCAST", "a blockwise plan on a dask array receives labels broadcast to the array's trailing shape", min_instances=2)
+    from ..cfg import CFG, node_defs, node_exprs
+    from ..dataflow import forward, atom_of
+    uc = ctx.prog.funcs.get("core._unify_chunks")
+    keeps_size1 = uc is not None and any(isinstance(n, ast.IfExp) and ".shape[" in norm(n.test) and "1" in norm(n.test) for n in ast.walk(uc.node))
+    if not keeps_size1:
+        res.notes.append("_unify_chunks no longer keeps size-1 label dimensions as a single chunk: labels reach the graph in full shape, rule not applicable")
+        res.min_instances = 0
+        return res
+    gr = ctx.prog.func("core.groupby_reduce")
+    call = None
+    for n in walk_own(gr.node):
+        if isinstance(n, ast.Assign) and isinstance(n.value, ast.Call) and norm(n.value.func) == "_choose_method":
+            call = n
+    if call is None:
+        raise AnalysisError("groupby_reduce no longer calls _choose_method (anchor)")
+    mvar = norm(call.targets[0])
+    partials = {n.targets[0].id: norm(n.value.args[0]) for n in walk_own(gr.node)
+                if isinstance(n, ast.Assign) and isinstance(n.value, ast.Call) and norm(n.value.func) in ("partial", "functools.partial")
+                and n.value.args and isinstance(n.targets[0], ast.Name)}
+    # sinks: (call, labels expression)
+    sinks = []
+    for n in walk_own(gr.node):
+        if isinstance(n, ast.Call) and getattr(n, "lineno", 0) > call.lineno:
+            name = partials.get(norm(n.func), norm(n.func))
+            if name == "rechunk_for_blockwise":
+                lab = kwarg(n, "labels") or (n.args[2] if len(n.args) > 2 else None)
+                sinks.append((n, lab, name))
+            elif name == "dask_groupby_agg":
+                lab = kwarg(n, "by") or (n.args[1] if len(n.args) > 1 else None)
+                sinks.append((n, lab, name))
+    if not any(nm == "dask_groupby_agg" for _, _, nm in sinks):
+        raise AnalysisError("groupby_reduce: the call of the dask graph constructor was not found after _choose_method (anchor)")
+    labs = {norm(l) for _, l, _ in sinks if isinstance(l, ast.Name)}
+    if len(labs) != 1:
+        raise AnalysisError(f"groupby_reduce: the blockwise sinks do not share one labels variable ({sorted(labs)})")
+    lv = labs.pop()
+    arr = next((norm(kwarg(n, "array") or n.args[0]) for n, _, nm in sinks if nm == "dask_groupby_agg" and (kwarg(n, "array") is not None or n.args)), "array")
+    A_BLOCK = f"{mvar} == 'blockwise'"
+    A_DASK = "any_by_dask"
+
+    def is_shape_atom(at: str) -> bool:
+        return at.startswith(f"{lv}.shape == {arr}.shape[") or at.startswith(f"{arr}.shape[") and at.endswith(f"== {lv}.shape")
+
+    def is_bcast(v) -> bool:
+        return isinstance(v, ast.Call) and norm(v.func) in ("np.broadcast_to", "numpy.broadcast_to") and len(v.args) >= 2 \
+            and norm(v.args[0]) == lv and norm(v.args[1]).startswith(f"{arr}.shape[")
+
+    cfg = CFG(gr)
+
+    def transfer(n, stt):
+        ds = node_defs(n)
+        if not ds & {lv, mvar, A_DASK}:
+            return stt
+        out = set()
+        for fs in stt:
+            d = dict(fs)
+            if mvar in ds:
+                d.pop(A_BLOCK, None)
+            if A_DASK in ds:
+                d.pop(A_DASK, None)
+            if lv in ds:
+                for k in [k for k in d if is_shape_atom(k)]:
+                    del d[k]
+                a = n.ast
+                d["<bcast>"] = bool(n.kind == "stmt" and isinstance(a, ast.Assign) and is_bcast(a.value))
+            out.add(frozenset(d.items()))
+        return frozenset(out)
+
+    def edge(n, lab, stt):
+        if n.kind == "test" and lab in ("T", "F") and n.ast is not None:
+            at, pol = atom_of(n.ast)
+            if at in (A_BLOCK, A_DASK) or is_shape_atom(at):
+                truth = pol if lab == "T" else not pol
+                out = set()
+                for fs in stt:
+                    d = dict(fs)
+                    if at in d and d[at] != truth:
+                        continue
+                    d[at] = truth
+                    out.add(frozenset(d.items()))
+                return frozenset(out) if out else None
+        return stt
+
+    ins, _ = forward(cfg, frozenset({frozenset()}), transfer, edge=edge, join=lambda x, y: x | y)
+    from ..dataflow import node_containing
+    for c, lab, name in sinks:
+        node = node_containing(cfg, c)
+        if node is None:
+            continue
+        bad = []
+        for fs in ins.get(node.id, frozenset()):
+            d = dict(fs)
+            if d.get(A_BLOCK) is False or d.get(A_DASK) is True or d.get("<bcast>") is True:
+                continue
+            if any(is_shape_atom(k) and v is True for k, v in d.items()):
+                continue
+            bad.append(d)
+        res.inst(f"groupby_reduce: {name}(…, labels={lv}) -- path classes on which a blockwise plan may see un-broadcast labels: {len(bad)} of {len(ins.get(node.id, ()))}",
+                 f"sink|{name}")
+        if bad:
+            res.report(f"core.groupby_reduce|blockwise-sees-unbroadcast-labels|{name}", gr.where(c), gr.qualname,
+                       f"'{name}' can be reached with {mvar} == 'blockwise' and in-memory labels '{lv}' whose size-1 dimensions were never broadcast to "
+                       f"{arr}.shape[-{lv}.ndim:] (path facts {sorted(bad[0].items())[:4]}): the plan lists labels per block / indexes them by array position, so "
+                       "labels of shape (1,) against several blocks give IndexError or a result whose length contradicts its declared shape")
+    return res
+
+
+# ---------------------------------------------------------------------------------------------
 # R-BLOCKLABELS (C16): the labels announced for a block are listed in the order in which the block's reduction yields them.
 # With method='blockwise' (no re-indexing) dask_groupby_agg computes the labels of every block eagerly and concatenates them; the values of
 # the block come from chunk_reduce, which orders its groups by `sort` (sorted, or first appearance).  The eager label list must follow the
